@@ -1034,8 +1034,11 @@ def stage_name_probe(rep):
     from bfg9000.builtins.find import find
     root = common.scratch('c11n')
     try:
-        for name, cls in (('a\\b', 'entry-name-with-backslash'), ('~', 'entry-name-leading-tilde'),
-                          ('c:x', 'entry-name-drive-like')):
+        # (name, finding class, the outcome the finding describes: the entry is never found / find raises the drive error);
+        # any other outcome on the same directory is a different violation
+        for name, cls, predicted in (('a\\b', 'entry-name-with-backslash', ['ok.c']), ('~', 'entry-name-leading-tilde', ['ok.c']),
+                                     ('c:x', 'entry-name-drive-like',
+                                      'raised ValueError: relative paths with drives not supported')):
             src = os.path.join(root, 'src')
             shutil.rmtree(src, ignore_errors=True)
             os.makedirs(src)
@@ -1048,7 +1051,7 @@ def stage_name_probe(rep):
             rep.case('name:' + name, True)
             if got != sorted([name, 'ok.c']):
                 rep.fail('a directory containing a file named %r: find_files("*") gives %r instead of both files' % (name, got),
-                         {'kind': 'name', 'name': name, 'got': got}, classes=(cls,))
+                         {'kind': 'name', 'name': name, 'got': got}, classes=(cls,) if got == predicted else ())
         # an absolute pattern whose first glob component sits directly under the root
         from bfg9000.glob import PathGlob
         rep.case('name:/*.c', True)
@@ -1056,7 +1059,7 @@ def stage_name_probe(rep):
             PathGlob('/*.c')
         except Exception as e:
             rep.fail('PathGlob("/*.c") raises %s: %s' % (type(e).__name__, e), {'kind': 'name', 'pattern': '/*.c'},
-                     classes=('absolute-root-level-glob',))
+                     classes=('absolute-root-level-glob',) if (isinstance(e, ValueError) and str(e) == "'' is not absolute") else ())
     finally:
         shutil.rmtree(root, ignore_errors=True)
 
